@@ -139,11 +139,33 @@ def sizes_degrees(draw, pdim, max_p, max_extra, different=False, min_p=1):
 @st.composite
 def spline(draw, kinds=("curve", "surface", "volume"), rational=None, max_p=4, max_extra=4, dims=None,
            unclamped=False, affine_range=False, normalize=None, different=False, distinct=False, kv_style=None,
-           min_p=1, vol_max_p=3, vol_max_extra=2, wmode=None, micro=False):
+           min_p=1, vol_max_p=3, vol_max_extra=2, wmode=None, micro=False, long=False):
     """A full shape definition.
       kind, rational, normalize, degree[], size[], kv[] (as given to the setters), P (flat, library order), W, dim
+    long=True: once in a while a curve with 250..258 control points (more than 256 knots), uniform interior knots and
+    pseudo-random control points derived from one generated integer.
     """
     kind = draw(st.sampled_from(list(kinds)))
+    if long and kind == "curve" and draw(st.integers(0, 19)) == 0:
+        p = draw(st.integers(1, 3))
+        n = draw(st.integers(250, 258))
+        m = n - p - 1
+        kv = [0.0] * (p + 1) + [(i + 1) / float(m + 1) for i in range(m)] + [1.0] * (p + 1)
+        dim = draw(st.sampled_from(list(dims or (2, 3))))
+        x = draw(st.integers(1, 10 ** 6)) * 2654435761 % (2 ** 32)
+        P, W = [], []
+        for _ in range(n):
+            q = []
+            for _ in range(dim):
+                x = (x * 1103515245 + 12345) % (2 ** 31)
+                q.append(((x >> 8) % 129 - 64) / 8.0)
+            P.append(q)
+            x = (x * 1103515245 + 12345) % (2 ** 31)
+            W.append(WEIGHTS[(x >> 8) % len(WEIGHTS)])
+        rat = draw(st.booleans()) if rational is None else rational
+        norm = True if normalize is None else (draw(st.booleans()) if normalize == "maybe" else normalize)
+        return {"kind": "curve", "rational": rat, "normalize": norm, "degree": [p], "size": [n], "kv": [kv],
+                "P": P, "W": W if rat else None, "dim": dim, "unclamped": False, "affine": None, "long": True}
     pdim = {"curve": 1, "surface": 2, "volume": 3}[kind]
     if kind == "volume":
         max_p, max_extra = min(max_p, vol_max_p), min(max_extra, vol_max_extra)
@@ -179,7 +201,7 @@ def spline(draw, kinds=("curve", "surface", "volume"), rational=None, max_p=4, m
     P = draw(points(count, dim, distinct=distinct))
     W = draw(weights(count, force=wmode)) if rat else None
     return {"kind": kind, "rational": rat, "normalize": norm, "degree": degs, "size": szs, "kv": kvs,
-            "P": P, "W": W, "dim": dim, "unclamped": uncl, "affine": aff}
+            "P": P, "W": W, "dim": dim, "unclamped": uncl, "affine": aff, "kv_tuple": draw(st.integers(0, 5)) == 0}
 
 
 @st.composite
@@ -187,7 +209,10 @@ def param_desc(draw):
     """Descriptor of a parameter in one direction, resolved against the built object's own knot vector:
        ["in", span_selector, num/64] strictly inside a non-empty span; ["knot", selector] on an interior knot
        (falls back to 'in' when there is none); ["start"]; ["end"]."""
-    k = draw(st.sampled_from(["in", "in", "knot", "knot", "start", "end", "other", "near", "decimal", "within"]))
+    k = draw(st.sampled_from(["in", "in", "knot", "knot", "start", "end", "other", "near", "decimal", "within", "zero"]))
+    if k == "zero":
+        # the parameter 0.0 itself when it lies strictly inside the domain (domains of shapes kept in their original range)
+        return ["zero", draw(st.integers(0, 63)), draw(st.integers(1, 63)) / 64.0]
     if k == "within":
         # 2^-25 (3e-8) next to an interior knot: closer than the library's knot identification tolerance (10e-8), not identical
         return ["within", draw(st.integers(0, 63)), draw(st.integers(1, 63)) / 64.0, draw(st.sampled_from([-1, 1]))]
